@@ -3,7 +3,7 @@
 p=$1; shift
 git -C /repo apply "$p" || { echo "patch does not apply"; exit 3; }
 for id in "$@"; do
-  /verif/check $id 2>&1 | grep -E "VIOLATION|ANALYSIS-BROKEN|OK property|^   [A-Z]" | grep -v "exception\|note:" | head -12
+  /verif/check $id 2>&1 | grep -E "VIOLATION|ANALYSIS-BROKEN|OK property|^   [A-Z]" | grep -v "exception\|note:" | head -30
 done
 git -C /repo checkout -- .
 git -C /repo status --short | head -3
